@@ -29,6 +29,7 @@ ASSUMPTIONS = [
     "data of length 0 for the adapter is outside the stated range (lengths 1..n)",
 ]
 TIMEOUT = {"quick": 900, "thorough": 4 * 3600}
+OPTIMIZED_SHARDS = ("modes1", "feeder1", "adapter1")  # these shards also run under python -O
 
 NIST_KEY = bytes.fromhex("2b7e151628aed2a6abf7158809cf4f3c")
 NIST_PT = bytes.fromhex(
